@@ -2,7 +2,7 @@
 Require Import Parser Printer.
 Require Lex LexProof LexCtx LexCtx2.
 Require Import ParserRoundTrip ParserParens.
-Require LexCase LexWs LexWsG ParserTokText SqlQueryText.
+Require LexCase LexWs LexWsG ParserTokText SqlQueryText LexKw KwText LexField LexProof.
 Require Import Api.
 From Coq Require Import List String NArith.
 Import ListNotations.
@@ -33,6 +33,43 @@ Proof.
   split; [vm_compute; repeat (constructor; [split; [reflexivity|intros H; first [reflexivity|discriminate H]]|]); constructor|].
   vm_compute. eexists; reflexivity.
 Qed.
+
+(* ... and from the query TEXT: s' is s with operator tokens (AND, OR, NOT, TO; any token that is not a term) respelled, each
+   between whitespace or at the end of the input (LexKw.kwvar: a derivation over the tokens of s; everything else - any bytes,
+   valid UTF-8 or not - unchanged). Then Parse returns the same result for both texts. Oracle facts: whitespace runes are not
+   alphanumeric, U+FFFD is no letter or digit. *)
+Theorem C09_keyword_case_same_parse_from_the_text : forall (cl : Lex.classes),
+  (forall r, Lex.is_space r = true -> Lex.is_alnum cl r = false) ->
+  Lex.is_letter cl 65533%N = false /\ Lex.is_digit cl 65533%N = false ->
+  forall (o : oracle) (df : string) (s s' : Lex.bytes), LexKw.kwvar cl s s' ->
+  Api.parse o cl df (string_of_list_ascii s) = Api.parse o cl df (string_of_list_ascii s').
+Proof. intros cl W F o df s s'. exact (KwText.parse_kw cl W F o df s s'). Qed.
+
+(* what makes it apply to keywords in another letter case: a word of ASCII letters, digits and underscores lexes alone as ONE
+   token, whose type (C09_keyword_case) depends on the word only up to letter case *)
+Theorem C09_keyword_spelling_lexes_alone : forall (cl : Lex.classes),
+  Lex.is_letter cl 34%N = false /\ Lex.is_digit cl 34%N = false ->
+  Lex.is_letter cl 58%N = false /\ Lex.is_digit cl 58%N = false ->
+  (forall r, Lex.is_space r = true -> Lex.is_alnum cl r = false) ->
+  forall (c0 : Ascii.ascii) (f : list Ascii.ascii), forallb (LexField.wordc cl) (c0 :: f) = true ->
+  LexWsG.clean_g cl {| Lex.typ := Lex.word_type (c0 :: f); Lex.val := c0 :: f |}.
+Proof. exact KwText.kw_clean. Qed.
+
+(* the relation is inhabited by a query and its variant:  a:b and c:d  /  a:b AND c:d *)
+Open Scope string_scope.
+Example c09_keyword_text_example :
+  LexKw.kwvar LexWs.cl_ascii (list_ascii_of_string "a:b and c:d") (list_ascii_of_string "a:b AND c:d").
+Proof.
+  pose (L := fun s => list_ascii_of_string s).
+  assert (P : forall ty v, ty <> TEOF -> ty <> TErr -> LexProof.proper {| Lex.typ := ty; Lex.val := v |}) by (intros; split; assumption).
+  apply (LexKw.kv_tok LexWs.cl_ascii [] {| Lex.typ := TLiteral; Lex.val := L "a" |} (L ":b and c:d") (L ":b AND c:d")); [reflexivity|vm_compute; reflexivity|apply P; discriminate|vm_compute; reflexivity|].
+  apply (LexKw.kv_tok LexWs.cl_ascii [] {| Lex.typ := TColon; Lex.val := L ":" |} (L "b and c:d") (L "b AND c:d")); [reflexivity|vm_compute; reflexivity|apply P; discriminate|vm_compute; reflexivity|].
+  apply (LexKw.kv_tok LexWs.cl_ascii [] {| Lex.typ := TLiteral; Lex.val := L "b" |} (L " and c:d") (L " AND c:d")); [reflexivity|vm_compute; reflexivity|apply P; discriminate|vm_compute; reflexivity|].
+  apply (LexKw.kv_kw LexWs.cl_ascii (L " ") {| Lex.typ := TAnd; Lex.val := L "and" |} {| Lex.typ := TAnd; Lex.val := L "AND" |} (L " c:d") (L " c:d"));
+    [reflexivity|discriminate|apply P; discriminate|apply P; discriminate|vm_compute; reflexivity|vm_compute; reflexivity|reflexivity|reflexivity|reflexivity|reflexivity|].
+  apply LexKw.kv_same.
+Qed.
+Close Scope string_scope.
 
 (* two printed trees (each with parentheses at least where the table requires them) that differ only in parenthesis nodes
    - around the whole query, around any operand, around a field's value - parse to one and the same tree *)
@@ -99,3 +136,5 @@ Print Assumptions C09_whitespace_same_parse_any_bytes.
 Print Assumptions C09_token_independent_of_what_follows.
 Print Assumptions C09_keyword_case_same_parse.
 Print Assumptions C09_keyword_case_same_parse_of_text.
+Print Assumptions C09_keyword_case_same_parse_from_the_text.
+Print Assumptions C09_keyword_spelling_lexes_alone.
